@@ -238,12 +238,24 @@ func runC11(c *eng.Ctx) {
 	})
 
 	// ---- 5. slot range union in the field writer ---------------------------------------------------------------------------------------
-	c.Rule("SYMMETRY", "tsdb/memdb.getTimeSlotRange{union}", func() {
-		f := c.Fn("tsdb/memdb.getTimeSlotRange")
+	c.Rule("SYMMETRY", "tsdb/memdb.getTimeSlotRange{union}", func() { // key kept from the first version of the rule
+		f := c.Fn("tsdb/memdb.slotRange") // the union may live in a helper (getTimeSlotRange) or in slotRange itself
 		clampIdiom(c, f, 2)
-		mk := c.One(f, eng.AnyCallTo("pkg/timeutil.NewSlotRange"), "NewSlotRange(start1, end1)")
-		a := eng.CallArgs(mk.Instr.(*ssa.Call))
-		c.Check(p.Desc(a[0]) == "startSlot1" && p.Desc(a[1]) == "endSlot1", "starts-from-first-range", mk.Instr, f, "the union starts from the first range", "")
+		dec := c.One(f, eng.AnyCallTo("pkg/encoding.DecodeTSDTime"), "DecodeTSDTime(compress)")
+		n := 0
+		for _, mk := range p.Sites(f, eng.AnyCallTo("pkg/timeutil.NewSlotRange")) {
+			a := eng.CallArgs(mk.Instr.(*ssa.Call))
+			from := func(v ssa.Value, idx int) bool {
+				return eng.DependsOn(v, func(x ssa.Value) bool { return extractIs(x, dec.Instr.(ssa.Value), idx) })
+			}
+			if !from(a[0], 0) && !from(a[1], 1) && !from(a[0], 1) && !from(a[1], 0) {
+				continue // the buffer-only range
+			}
+			n++
+			c.Check(from(a[0], 0) && from(a[1], 1) && !from(a[0], 1) && !from(a[1], 0), fmt.Sprintf("starts-from-compressed-range[%d]", n), mk.Instr, f,
+				"the union starts from the compressed block's own [start, end]", "NewSlotRange("+p.Desc(a[0])+", "+p.Desc(a[1])+")")
+		}
+		c.Check(n == 1, "compressed-range-built", dec.Instr, f, "the range of the compressed block is built once from its decoded start and end", fmt.Sprintf("%d", n))
 		pr := c.Fn(mgT + ".prepare")
 		clampIdiom(c, pr, 2)
 	})
